@@ -8,37 +8,27 @@ COMMON_NOTE = ("Trusted: Coq 8.16.1 kernel (vm_compute used, native_compute not)
                "code by the correspondence streams of each run, not verified. ")
 TECH = "Coq theorem over a Gallina model + model/implementation correspondence (extracted OCaml) + Spec oracle on implementation output"
 P = {
- "C01": ("proof", "Theorem (kernel-checked, all arguments): frames built from the regenerated templates are well-formed and signed "
-         "(reflection over symbolic cells; currently closed for the control frame, the other operations by the same decision procedure "
-         "are being added) plus set_message_length / sign lemmas for all inputs; every run re-evaluates the Spec's frame checker on every "
-         "frame the real client writes for all 12 operations and compares frame shapes with the model.", "5 C01",
-         "partial: per-template instances not yet closed for every operation; the API wiring is modelled"),
- "C02": ("proof", "Theorem: every packet template of the sources equals, piece by piece, an independently written byte layout (15 "
-         "templates, re-decided whenever a template changes); the argument encoders have round-trip lemmas; each run compares the real "
-         "command frame byte by byte with the Spec's rendering of (operation, arguments) on boundary and random arguments and checks "
-         "that rejected arguments raise with only the login frame written.", "5 C02", "partial: the composed statement decode(frame) = arguments is checked per run by the Spec oracle, not yet one theorem"),
- "C03": ("proof", "Theorem about the exchange model (for every reply script the state query writes the login frame first, nothing after "
-         "an empty login reply, exactly one command frame otherwise); the model has no state between operations by construction; each run "
-         "drives single operations, sequences on one object and two interleaved objects and judges every frame with the Spec's shape "
-         "checker (login credential, session of this login, timestamp, device id, frame count).", "5 C03",
-         "partial: real asyncio scheduling and absence of hidden Python state are tested, not modelled"),
+ "C01": ("proof", "Theorem C01_every_written_frame_is_well_formed (kernel-checked, no bound): for all 12 operations of both APIs (thermostat control with its state query, status frame, IR frame and separate swing frame included), every configuration, clock reading, accepted argument and reply script whose login reply has 12 bytes, every byte string the exchange model writes satisfies the Spec's frame predicate (magic, LE16 of its own length, terminator, double-CRC signature); proved with a Hoare logic over the exchange monad and one reflection fact per regenerated packet template. Each run compares the frames the real client writes (in-process and over loopback TCP) with the model and evaluates the extracted frame predicate on every one of them.", "5 C01 / 12.2",
+         'the API wiring (which template, argument order, where set_message_length is applied) is modelled by hand and tied by correspondence'),
+ "C02": ("proof", "Theorems C02_<operation> for control_device, set_auto_shutdown, set_device_name, get_schedules, delete_schedule, stop and set_position: the exact frame list of the exchange model is [Spec login frame; Spec command frame], where the Spec frame renders an independently written byte layout with the declared meaning of the arguments (60 x minutes, whole minutes in 1h..23h59m, UTF-8 padded to 32 bytes, slot, position), and rejected arguments leave the login frame alone; generic theorem: whatever a call site writes is the layout's frame; all 15 templates equal their layouts. Each run compares the real command frame byte by byte with the extracted Spec on boundary and random arguments.", "5 C02 / 12.2",
+         'partial for create_schedule and the thermostat frames (template = layout + C11/C12 theorems + per-run Spec oracle)'),
+ "C03": ("proof", "Theorems: the exchange model of an operation is a function of its own configuration, clock reading, arguments and replies; the Spec login frame carries a zero session, the timestamp and the key (type 1) / device id (type 2); every Spec command frame carries at bytes 8-11 / 24-27 / 40-42 the session of this login's reply, this operation's timestamp and the device id; with C02's exact frame lists this fixes number, order and binding of frames. Each run drives single operations, sequences on one object, two interleaved objects (incl. the four-frame thermostat flow) and judges every frame with the extracted shape checker.", "5 C03 / 12.2",
+         'partial: that the Python classes keep no hidden state and how asyncio interleaves coroutines is tested by correspondence, not modelled'),
  "C04": ("proof", "Theorems for every hex string: sign(p) = p ++ hex(double CRC) with the bit-serial CRC-16/CCITT as Spec, table-driven "
          "crc_hqx proved equal to it, rejection of non-hex input; per run the extracted model and Spec are compared with "
          "sign_packet_with_crc_key and binascii.crc_hqx.", "5 C04", "crc_hqx of CPython is modelled by its table-driven algorithm"),
- "C05": ("proof", "Theorem: parse(encode(description)) = description for the thermostat broadcast for all field values and all filler "
-         "bytes, amps lemma for all 65536 wattages on the bit-exact float model; per run the Spec encoder for all 9 device types feeds "
-         "the real parser directly and through a running bridge and every field is compared.", "5 C05", "partial: round-trip theorem closed for the thermostat family; the other families by correspondence + Spec oracle"),
+ "C05": ("proof", 'Theorems: parse(encode(description)) = description for the water heaters and the power plug (165 bytes, OFF normalisation), Runner / Runner Mini (159 bytes, MAC at 81-86) and the thermostat (168 bytes), for every field value and every filler byte; amps lemma for all 65536 wattages on a bit-exact float model. Each run feeds Spec-encoded descriptions of all 9 types to the real parser directly and through a running bridge (with byte-identical repeats) and compares every field.', "5 C05 / 12.2",
+         'the broadcast layouts transcribe the pinned commit and the shipped captures; kernel float primitives for amps'),
  "C06": ("proof", "Theorems for every byte string: the gate is exactly magic + three lengths, anything else is Ignored, an accepted frame "
          "with an unknown model code is Warned; per run every length 0..400, mutated captures and model codes are fed to the real parser "
          "and a running bridge observing callbacks, warnings and the loop exception handler.", "5 C06", ""),
  "C07": ("proof", "Theorem over all event sequences, ports and raising patterns of the dispatch model: the callback log is exactly the "
          "valid broadcasts once each in order, per port, independent of everything else; per run sequences are sent to a real bridge "
          "over loopback UDP with raising callbacks.", "5 C07", "partial: event-loop isolation of callback exceptions and UDP FIFO are runtime facts exercised, not modelled"),
- "C08": ("proof", "Theorem: parse(encode(fields)) = fields for the type-1 state reply for all values and filler; per run Spec encoders of "
-         "all four reply kinds feed the real response classes and the three state queries.", "5 C08", "partial: round-trip theorem closed for the type-1 reply; shutter / thermostat / login by correspondence + Spec oracle"),
- "C09": ("proof", "Theorems for every reply: the type-1 parser raises only KeyError / ValueError (OverflowError unreachable from 4-byte "
-         "fields), so the state query ends in a response or RuntimeError; empty login reply writes one frame and raises; per run every "
-         "prefix of valid replies, random and corrupted replies at every step of all operations.", "5 C09", "partial: totality theorem closed for the type-1 query; the exception class of each Python primitive is modelled"),
+ "C08": ("proof", 'Theorems: parse(encode(fields)) = fields for the type-1 state reply, the shutter reply, the thermostat reply and the login reply, for all field values and filler; amps lemma. Each run feeds Spec-encoded replies to the real response classes and state queries.', "5 C08 / 12.2",
+         'reply layouts transcribe the pinned commit; kernel float primitives for amps'),
+ "C09": ("proof", 'Theorems for every reply script: the three reply parsers raise only what the API wraps; get_state, get_breeze_state and get_shutter_state end in a response or RuntimeError, write one frame and raise on an empty login reply, two frames otherwise; every type-2 operation and thermostat control raise RuntimeError after the login frame on an empty login reply; successful iff non-empty. Each run drives the real methods with every prefix of valid replies, random and corrupted replies, and all thermostat request shapes with an empty reply at each step.', "5 C09 / 12.2",
+         'the exception class each Python primitive raises is the modelled part, validated by the malformed streams'),
  "C10": ("proof", "Theorems for every zone table: a whole record parses to its id, recurrence, day set, local start and end; chunking and "
          "region lemmas; per run replies built by the Spec encoder are parsed by the real code under a virtual clock in several zones and "
          "judged by a zoneinfo oracle; create -> list-back round trips.", "5 C10", "relative to trusted zone data (TZif)"),
@@ -47,8 +37,8 @@ P = {
          "judged by zoneinfo.", "5 C11", "libc following the zone table is checked by correspondence only"),
  "C12": ("proof", "Theorems for arbitrary duplicate-free inputs over the regenerated Days table: mask facts, encode (set and sequence "
          "form), decode(encode), rejections; the finite space is enumerated completely on the real code in every run.", "5 C12", ""),
- "C13": ("proof", "Theorem: for every weekday, flag and duplicate-free selection in any order the day choice equals the Spec's earliest "
-         "future occurrence; per run weekday x day-set x minute grids under TZ + virtual clock in several zones, judged with zoneinfo facts.", "5 C13", "text wrapper and clock reading are tied by correspondence"),
+ "C13": ("proof", "Theorems for every zone table, instant, start minute and duplicate-free day set in any order: the text equals the Spec's earliest-future-occurrence choice; the named weekday is selected, 'today' only with the start still ahead, a week ahead only when today's time has passed. Each run: weekday x day-set x minute grids under TZ + virtual clock in several zones, judged with zoneinfo facts.", "5 C13 / 12.2",
+         'libc following the zone table is checked by correspondence only'),
  "C14": ("proof", "Theorem for all 1440 x 1440 pairs: duration = H:MM:SS of (end - start) mod 24 h; per run 13 000 pairs (thorough: all 2 073 600) on the real code.", "5 C14", ""),
  "C15": ("proof", "Theorems: the pop loop returns the most specific stored prefix for every key list and set; the length field is LE16; "
          "per run generated IR sets x requests are built by the real remote and compared with the model and a declarative Spec (search "
